@@ -625,6 +625,30 @@ impl<'a, 'tcx> BodyCx<'a, 'tcx> {
     }
 }
 
+struct UnsafeFinder<'tcx> {
+    tcx: TyCtxt<'tcx>,
+    found: Vec<J>,
+}
+
+impl<'tcx> rustc_hir::intravisit::Visitor<'tcx> for UnsafeFinder<'tcx> {
+    fn visit_block(&mut self, b: &'tcx rustc_hir::Block<'tcx>) {
+        if let rustc_hir::BlockCheckMode::UnsafeBlock(src) = b.rules {
+            self.found.push(J::obj(vec![
+                ("span", span_json(self.tcx, b.span)),
+                ("user", J::Bool(matches!(src, rustc_hir::UnsafeSource::UserProvided))),
+            ]));
+        }
+        rustc_hir::intravisit::walk_block(self, b);
+    }
+}
+
+fn unsafe_blocks<'tcx>(tcx: TyCtxt<'tcx>, owner: LocalDefId) -> J {
+    let body = tcx.hir_body_owned_by(owner);
+    let mut v = UnsafeFinder { tcx, found: Vec::new() };
+    rustc_hir::intravisit::Visitor::visit_expr(&mut v, body.value);
+    J::Arr(v.found)
+}
+
 fn body_kind(tcx: TyCtxt<'_>, d: LocalDefId) -> &'static str {
     match tcx.def_kind(d) {
         DefKind::Fn => "fn",
@@ -694,6 +718,7 @@ fn dump(tcx: TyCtxt<'_>, out_dir: &str) {
                 }
                 j.push("item_name", J::s(tcx.item_name(did).to_string()));
             }
+            j.push("unsafe_blocks", unsafe_blocks(tcx, owner));
             if kind == "closure" {
                 let parent = tcx.typeck_root_def_id(did);
                 j.push("closure_root", J::s(def_str(tcx, parent)));
